@@ -73,6 +73,25 @@ impl StreamingQueryExecutor {
     pub async fn execute(self, sql: &str) -> Result<mpsc::Receiver<Result<RecordBatch>>> {
         let (tx, rx) = mpsc::channel(100);
 
+        // A node that has not answered a query yet knows `metrics` only with the built-in
+        // default schema; a statement over the data's own columns or timestamp type cannot
+        // be planned against it. Bind the table to a known chunk first (as plain queries do).
+        if !self.engine.is_bound_to_data() {
+            let mut known: Vec<String> = self
+                .metadata
+                .list_chunks()
+                .await?
+                .into_iter()
+                .map(|chunk| chunk.chunk_path)
+                .collect();
+            known.sort();
+            if let Some(first) = known.first() {
+                self.engine
+                    .register_metrics_table_for_chunks(std::slice::from_ref(first))
+                    .await?;
+            }
+        }
+
         // Extract pruning inputs. If metrics table is not yet registered, bootstrap
         // with all known chunks and retry parsing.
         let (time_range, predicates) = match (
@@ -219,6 +238,8 @@ fn is_table_not_found_error(error: &Error) -> bool {
 pub struct QueryFilter {
     /// Parsed predicates from SQL
     pub predicates: Vec<ColumnPredicate>,
+    /// Text of the WHERE clause, evaluated by the query engine on every live batch
+    where_sql: Option<String>,
 }
 
 impl QueryFilter {
@@ -232,17 +253,48 @@ impl QueryFilter {
         let ast = match Parser::parse_sql(&dialect, sql) {
             Ok(stmts) => stmts,
             Err(_) => {
-                return Self { predicates: vec![] };
+                return Self {
+                    predicates: vec![],
+                    where_sql: None,
+                };
             }
         };
 
+        let mut where_sql = None;
         for stmt in ast {
             if let Statement::Query(query) = stmt {
                 Self::extract_predicates_from_set_expr(&query.body, &mut predicates);
+                if let SetExpr::Select(select) = query.body.as_ref() {
+                    if let Some(selection) = &select.selection {
+                        where_sql = Some(selection.to_string());
+                    }
+                }
             }
         }
 
-        Self { predicates }
+        Self {
+            predicates,
+            where_sql,
+        }
+    }
+
+    /// Evaluate the WHERE clause on a batch with the query engine's own expression
+    /// evaluation, so that the live tail and the historical answer agree on every form the
+    /// engine understands (typed literals, negative numbers, unsigned and other column
+    /// types, exact float comparison, now()).
+    fn evaluate_where(where_sql: &str, batch: &RecordBatch) -> Result<BooleanArray> {
+        use datafusion::common::DFSchema;
+        static CONTEXT: std::sync::OnceLock<datafusion::prelude::SessionContext> =
+            std::sync::OnceLock::new();
+        let ctx = CONTEXT.get_or_init(datafusion::prelude::SessionContext::new);
+        let df_schema = DFSchema::try_from(batch.schema().as_ref().clone())?;
+        let expr = ctx.parse_sql_expr(where_sql, &df_schema)?;
+        let physical = ctx.create_physical_expr(expr, &df_schema)?;
+        let selected = physical.evaluate(batch)?.into_array(batch.num_rows())?;
+        selected
+            .as_boolean_opt()
+            .cloned()
+            .ok_or_else(|| crate::Error::Query("WHERE clause is not boolean".to_string()))
     }
 
     /// Extract predicates from a SetExpr (SELECT body)
@@ -414,9 +466,26 @@ impl QueryFilter {
             }
         }
 
-        // Apply predicate filters using the unified ColumnPredicate type
-        for pred in &self.predicates {
-            Self::apply_predicate_to_mask(pred, batch, &mut mask);
+        // The WHERE clause, exactly; if the engine cannot evaluate it against this batch
+        // (e.g. a column the batch lacks), fall back to the predicate list, which treats
+        // what it does not understand as "may match".
+        let exact = self
+            .where_sql
+            .as_deref()
+            .and_then(|where_sql| Self::evaluate_where(where_sql, batch).ok());
+        match exact {
+            Some(selected) => {
+                for (i, m) in mask.iter_mut().enumerate() {
+                    if *m {
+                        *m = selected.is_valid(i) && selected.value(i);
+                    }
+                }
+            }
+            None => {
+                for pred in &self.predicates {
+                    Self::apply_predicate_to_mask(pred, batch, &mut mask);
+                }
+            }
         }
 
         if !mask.iter().any(|&m| m) {
